@@ -438,6 +438,11 @@ class Request(Message):
         # => manually reject one always invalid URI: empty
         if len(self.uri) == 0:
             raise InvalidRequestLine(bytes_to_str(line_bytes))
+        # => and the ones urlsplit() silently changes (it drops TAB, CR, LF and
+        # leading control characters): the application would see a different
+        # path than the one that was sent (and logged)
+        if self.uri[0] <= " " or any(c in self.uri for c in "\t\r\n"):
+            raise InvalidRequestLine(bytes_to_str(line_bytes))
 
         try:
             parts = split_request_uri(self.uri)
